@@ -300,7 +300,7 @@ def gr_10(ctx, rep, modules, min_abs=2):
                     continue
                 guards = Guards(ctx, f, recv, n)
                 if guards.index_error_caught:
-                    rep.ob('GR-10', rel, f.qual, construct, True, 'inside try/except IndexError')
+                    rep.ob('GR-10', rel, f.qual, construct, True, reason='inside try/except IndexError')
                     n_checked += 1
                     continue
                 if guards.unknown:
